@@ -7,11 +7,32 @@ use crate::{Ctx, Tier};
 
 pub mod c01;
 pub mod c02;
+pub mod c03;
+pub mod c06;
+pub mod c10;
+pub mod c11;
+pub mod c12;
+pub mod c13;
+pub mod c14;
+pub mod deblk;
+pub mod yuv;
+pub mod pcheck;
 
 pub fn run(prop: &str, ctx: &Ctx) -> Option<(Report, String)> {
     Some(match prop {
         "C01" => c01::run(ctx),
         "C02" => c02::run(ctx),
+        "C03" => c03::run(ctx),
+        "C12" => c12::run(ctx),
+        "C06" => c06::run(ctx),
+        "C14" => c14::run(ctx),
+        "C10" => c10::run(ctx),
+        "C11" => c11::run(ctx),
+        "C13" => c13::run(ctx),
+        "C07" => yuv::run_c07(ctx),
+        "C08" => yuv::run_c08(ctx),
+        "C09" => deblk::run_c09(ctx),
+        "C16" => deblk::run_c16(ctx),
         _ => return None,
     })
 }
@@ -50,6 +71,17 @@ pub fn replay(j: &J) -> i32 {
     match prop.as_str() {
         "C01" => c01::replay(&ctx, j, &mut rep),
         "C02" => c02::case(&ctx, shard, index, &mut rep),
+        "C03" => c03::case(&ctx, shard, index, &mut rep),
+        "C12" => c12::replay_shard(&ctx, shard, &mut rep),
+        "C06" => c06::replay_shard(&ctx, shard, &mut rep),
+        "C14" => c14::replay_shard(&ctx, shard, &mut rep),
+        "C10" => c10::replay(j, &mut rep),
+        "C11" => c11::replay(&ctx, j, &mut rep),
+        "C13" => c13::replay(&ctx, j, &mut rep),
+        "C07" => yuv::replay_c07(j, &mut rep),
+        "C08" => yuv::replay_c08(j, &mut rep),
+        "C09" => deblk::replay_image(j, &mut rep, "C09"),
+        "C16" => deblk::replay_image(j, &mut rep, "C16"),
         _ => {
             eprintln!("unknown property in replay file");
             return 2;
